@@ -352,6 +352,35 @@ pub mod fs {
         result
     }
 
+    /// The other mutating functions of `std::fs` (the crate does not use them today): performed and
+    /// recorded as `fsop` so that a use of one of them shows up in the log.
+    fn other<T>(name: &str, path: &Path, second: Option<&Path>, run: impl FnOnce() -> io::Result<T>) -> io::Result<T> {
+        super::sched::yield_point();
+        let mut guard = fslog::lock();
+        let state = match guard.as_mut() {
+            Some(state) => state,
+            None => return run(),
+        };
+        let (index, verdict) = state.next_op();
+        let result = match verdict {
+            Verdict::Run => run(),
+            Verdict::Fail => Err(fslog::injected()),
+            Verdict::Crash(_) => state.crash(),
+        };
+        let to = match second { Some(second) => format!(" to={}", path_field(second)), None => String::new() };
+        state.record("fsop", &format!("op={} name={} path={}{} ok={}", index, name, path_field(path), to, result.is_ok() as u8));
+        result
+    }
+
+    pub fn remove_dir<P: AsRef<Path>>(path: P) -> io::Result<()> { let path = path.as_ref(); other("remove_dir", path, None, || std::fs::remove_dir(path)) }
+    pub fn remove_dir_all<P: AsRef<Path>>(path: P) -> io::Result<()> { let path = path.as_ref(); other("remove_dir_all", path, None, || std::fs::remove_dir_all(path)) }
+    pub fn remove_file<P: AsRef<Path>>(path: P) -> io::Result<()> { let path = path.as_ref(); other("remove_file", path, None, || std::fs::remove_file(path)) }
+    pub fn create_dir<P: AsRef<Path>>(path: P) -> io::Result<()> { let path = path.as_ref(); other("create_dir", path, None, || std::fs::create_dir(path)) }
+    pub fn rename<P: AsRef<Path>, Q: AsRef<Path>>(from: P, to: Q) -> io::Result<()> { let (from, to) = (from.as_ref(), to.as_ref()); other("rename", from, Some(to), || std::fs::rename(from, to)) }
+    pub fn copy<P: AsRef<Path>, Q: AsRef<Path>>(from: P, to: Q) -> io::Result<u64> { let (from, to) = (from.as_ref(), to.as_ref()); other("copy", from, Some(to), || std::fs::copy(from, to)) }
+    pub fn hard_link<P: AsRef<Path>, Q: AsRef<Path>>(from: P, to: Q) -> io::Result<()> { let (from, to) = (from.as_ref(), to.as_ref()); other("hard_link", from, Some(to), || std::fs::hard_link(from, to)) }
+    pub fn write<P: AsRef<Path>, C: AsRef<[u8]>>(path: P, contents: C) -> io::Result<()> { let path = path.as_ref(); other("write", path, None, || std::fs::write(path, contents.as_ref())) }
+
     pub fn metadata<P: AsRef<Path>>(path: P) -> io::Result<std::fs::Metadata> {
         let path = path.as_ref();
         super::sched::yield_point();
